@@ -57,6 +57,8 @@ type Path struct {
 	ended     string
 	bounds    map[string]int64
 	usesStr   bool
+	unknowns  int
+	ending    bool
 	regs      []region
 	memo      map[string]interface{}
 	facts     map[string]bool
